@@ -34,3 +34,51 @@ kproof! {
         kani::cover!(s == PreflateStrategy::Store, "store");
     }
 }
+
+kproof! {
+    /// K04f: PreflateParameters::write emits the same (kind, width, value) sequence as the reference
+    /// build for every parameter vector: field order and widths of the header are part of the format
+    fn k04f_param_header_equiv() {
+        let p = any_predictor_params();
+        kani::assume(p.min_len != u32::MAX);
+        let (lazy, gl, ml) = match p.matching_type { MatchingType::Greedy => (0u32, 0u32, 0u32), MatchingType::Lazy { good_length, max_lazy } => (1, good_length as u32, max_lazy as u32) };
+        let (pk, pl) = match p.add_policy {
+            DictionaryAddPolicy::AddAll => (0u32, 0u32), DictionaryAddPolicy::AddFirst(v) => (1, v as u32), DictionaryAddPolicy::AddFirstAndLast(v) => (2, v as u32),
+            DictionaryAddPolicy::AddFirstExcept4kBoundary => (3, 0), DictionaryAddPolicy::AddFirstWith32KBoundary => (4, 0),
+        };
+        let (hk, hm, hs) = match p.hash_algorithm {
+            HashAlgorithm::None => (0u32, 0u32, 0u32), HashAlgorithm::Zlib { hash_mask, hash_shift } => (1, hash_mask as u32, hash_shift), HashAlgorithm::MiniZFast => (2, 0, 0),
+            HashAlgorithm::Libdeflate4 => (3, 0, 0), HashAlgorithm::Libdeflate4Fast => (4, 0, 0), HashAlgorithm::ZlibNG => (5, 0, 0),
+            HashAlgorithm::RandomVector => (6, 0, 0), HashAlgorithm::Crc32cHash => (7, 0, 0),
+        };
+        let huff: u32 = kani::any();
+        kani::assume(huff <= 2);
+        let f: [u32; 19] = [huff, if p.strategy == PreflateStrategy::Default { 0 } else { 1 }, p.window_bits, p.nice_length, pk, pl, p.max_token_count as u32,
+            p.zlib_compatible as u32, p.max_dist_3_matches as u32, lazy, gl, ml, p.max_chain, p.min_len, hk, hm, hs,
+            p.very_far_matches_detected as u32, p.matches_to_start_detected as u32];
+        let a = super::verif_export::write_ops(&f);
+        let b = preflate_ref::preflate_parameter_estimator::verif_export::write_ops(&f);
+        assert!(a.n == b.n, "parameter header has a different number of fields than the reference build's");
+        let mut i = 0;
+        while i < crate::verif_export_common::XN {
+            if i < a.n { assert!(a.kind[i] == b.kind[i] && a.ctx[i] == b.ctx[i] && a.val[i] == b.val[i], "parameter header field differs from the reference build (order, width or value)"); }
+            i += 1;
+        }
+        kani::cover!(hk == 1 && pk == 2, "zlib hash + first-and-last");
+    }
+}
+kproof! {
+    /// K04g: the no-dictionary parameter vector (incl. the default block size) equals the reference build's
+    fn k04g_nodict_params_equiv() {
+        let stored: bool = kani::any();
+        let a = super::verif_export::nodict_ops(stored);
+        let b = preflate_ref::preflate_parameter_estimator::verif_export::nodict_ops(stored);
+        assert!(a.n == b.n);
+        let mut i = 0;
+        while i < crate::verif_export_common::XN {
+            if i < a.n { assert!(a.kind[i] == b.kind[i] && a.ctx[i] == b.ctx[i] && a.val[i] == b.val[i], "no-dictionary parameter vector differs from the reference build"); }
+            i += 1;
+        }
+        kani::cover!(stored, "stored"); kani::cover!(!stored, "huffman only");
+    }
+}
